@@ -504,6 +504,20 @@ func checkCommitClassification(p *Prog, r *Roles, res *Result) {
 			if x == ssa.Value(eng) {
 				continue
 			}
+			// parameter of a classification helper that runs only inside Commit: decided by its actuals
+			if prm, ok := x.(*ssa.Parameter); ok && prm.Parent() != commit && p.onlyWithin(prm.Parent(), commit, 0) {
+				sites, _ := p.liftSites(prm.Parent())
+				okAll := len(sites) > 0
+				for _, s := range sites {
+					cs, isCall := s.(ssa.CallInstruction)
+					if !isCall || cs.Common().StaticCallee() != prm.Parent() || !isEngErrRec(cs.Common().Args[paramIndex(prm)], d+1) {
+						okAll = false
+					}
+				}
+				if okAll {
+					continue
+				}
+			}
 			// an already wrapped engine error (the classification loop has no break)
 			if wc, ok := x.(*ssa.Call); ok && wc.Common().StaticCallee() == newUnc && isEngErrRec(wc.Common().Args[0], d+1) {
 				continue
@@ -526,7 +540,7 @@ func checkCommitClassification(p *Prog, r *Roles, res *Result) {
 			}
 			nw++
 			construct := fmt.Sprintf("%s: NewErrUncertainResult #%d", funcName(f), nw)
-			if f != commit {
+			if !p.onlyWithin(f, commit, 0) {
 				res.bad("C09-R4", construct, p.pos(cc.Pos()), "an unknown-outcome error is produced outside the adapter's Commit")
 				continue
 			}
@@ -567,9 +581,26 @@ func checkCommitClassification(p *Prog, r *Roles, res *Result) {
 	}
 	// conflict -> ErrCASFailed
 	okConf := false
+	// Commit itself and the helpers whose result Commit returns
+	region := []*ssa.Function{commit}
 	for _, b := range commit.Blocks {
+		if ret, isRet := b.Instrs[len(b.Instrs)-1].(*ssa.Return); isRet && len(ret.Results) > 0 {
+			for _, v := range resolveAllCells(ret.Results[0]) {
+				if hc, ok := v.(*ssa.Call); ok {
+					if sc := hc.Common().StaticCallee(); sc != nil && sc.Blocks != nil && sc.Pkg == tp && p.onlyWithin(sc, commit, 0) {
+						region = append(region, sc)
+					}
+				}
+			}
+		}
+	}
+	var retBlocks []*ssa.BasicBlock
+	for _, g := range region {
+		retBlocks = append(retBlocks, g.Blocks...)
+	}
+	for _, b := range retBlocks {
 		ret, isRet := b.Instrs[len(b.Instrs)-1].(*ssa.Return)
-		if !isRet {
+		if !isRet || len(ret.Results) == 0 {
 			continue
 		}
 		for _, cf := range dominatingFacts(b) {
